@@ -28,6 +28,7 @@ def run(ctx, db, tier):
     locks.check_guarded(ctx, db, 'C16.locks', {k: v for k, v in GUARDED.items() if k.startswith(PQ)}, [PQ, 'cocls::publisher', 'cocls::subscriber'], per_instance=False, floor=15)
     subscriber_protocol(ctx, db)
     end_of_stream(ctx, db)
+    every_access_style_fetches(ctx, db)
 
 
 def advance_before_read(ctx, db):
@@ -282,3 +283,23 @@ def end_of_stream(ctx, db):
         if not bad and (nend == 0 or nval == 0):
             bad = 'get_value_lk lost its outcomes'
         ctx.ob(rid, f, f['key'], bad is None, 'end iff kicked or caught up' + ('' if not bad else ' -- ' + bad), desc=bad)
+
+
+def every_access_style_fetches(ctx, db):
+    rid = ctx.rule('C16.every-next-fetches', 'COUNT (interval summaries)', 'every way of asking a subscriber for the next value ends in exactly one check_next() (which fetches the value the '
+                   'position was advanced to) on every path through its call tree: polled (next_ready when ready), awaited (next_awt::await_resume) and blocking (next_awt::operator bool, '
+                   'also behind begin() and the iterator ++)', floor=3)
+    is_fetch = lambda it: it.k == 'call' and norm(it.get('callee')) == 'cocls::subscriber::check_next'
+    cache = {}
+    follow = lambda c: c['nname'].startswith(('cocls::subscriber', 'cocls::co_awaiter', 'cocls::generator_iterator'))
+    for name, lo, hi in (('cocls::subscriber::next_awt::await_resume', 1, 1), ('cocls::subscriber::next_awt::operator bool', 1, 1), ('cocls::subscriber::next_ready', 0, 1)):
+        fns = db.need(name)
+        seen = set()
+        for f in fns:
+            a, b = interval_count(db, f, is_fetch, cache, follow=follow)
+            ok = (a >= lo and b <= hi and b >= 1)
+            if (f['key'], ok) in seen:
+                continue
+            seen.add((f['key'], ok))
+            ctx.ob(rid, f, f['key'], ok, '%s fetches the value exactly once per answer (found between %d and %d check_next calls)' % (name.split('::', 2)[2], a, b),
+                   desc='%s performs [%d,%d] check_next calls' % (name, a, b), inst=f['inst'])
